@@ -149,11 +149,11 @@ Definition spec_attr_value (o : opts) (a : attr) : bytes :=
 (* the namespace declaration of an element: the entry of the element's code page, when the page differs from
    the parent's (or there is no parent) *)
 Definition spec_ns (l : xlang) (parent : pinfo) (nm : tname) : list (bytes * bytes) :=
-  match xl_ns l with
-  | Some nst => if ns_wanted parent nm then
-                  match get_xmlns nst (tname_page nm) with Some ns => [(s_xmlns_name, ns)] | None => [] end
+  match xl_ns l, nm with
+  | Some nst, TTok r => if ns_wanted parent nm then
+                  match get_xmlns nst (tr_page r) with Some ns => [(s_xmlns_name, ns)] | None => [] end
                 else []
-  | None => []
+  | _, _ => []
   end.
 
 Definition spec_attrs (l : xlang) (o : opts) (parent : pinfo) (nm : tname) (attrs : list attr) : list (bytes * bytes) :=
@@ -187,7 +187,7 @@ Definition info_list (f : option trow -> node -> option (list xitem)) : option t
 Fixpoint info_node (l : xlang) (o : opts) (parent : pinfo) (cur : option trow) (n : node) {struct n} : option (list xitem) :=
   match n with
   | Elt nm attrs ch =>
-    match info_list (info_node l o (PElt nm)) (cur_of nm) ch with
+    match info_list (info_node l o (pinfo_below parent nm)) (cur_of nm) ch with
     | Some items => Some [XE (tname_bytes nm) (spec_attrs l o parent nm attrs) (merge_items items)]
     | None => None
     end
@@ -230,7 +230,7 @@ Fixpoint node_ok (l : xlang) (o : opts) (parent : pinfo) (cur : option trow) (n 
     (fix go (cur : option trow) (ns : list node) : bool :=
        match ns with
        | [] => true
-       | x :: r => node_ok l o (PElt nm) cur x && go None r
+       | x :: r => node_ok l o (pinfo_below parent nm) cur x && go None r
        end) (cur_of nm) ch
   | Text s => chars_ok o s && negb (tag_is_binary cur)
   | _ => false
@@ -579,7 +579,7 @@ Lemma enc_node_elt l o parent s nm attrs ch :
    match ch with
    | [] => XOk (b1 ++ b2 ++ b3, s3)
    | _ =>
-     match seq_nodes (enc_node l o (PElt nm)) ch s3 with
+     match seq_nodes (enc_node l o (pinfo_below parent nm)) ch s3 with
      | XOk (b4, s4) => let '(b5, s5) := xml_encode_end_tag o nm ch s4 in XOk (b1 ++ b2 ++ b3 ++ b4 ++ b5, s5)
      | XErr e => XErr e
      end
@@ -595,7 +595,7 @@ Lemma enc_elt_noindent l o parent s nm attrs ch :
   match ch with
   | [] => XOk (elt_open l o parent nm attrs ++ [47; 62], set_cur (cur_of nm) s)
   | _ =>
-    match seq_nodes (enc_node l o (PElt nm)) ch (set_cur (cur_of nm) s) with
+    match seq_nodes (enc_node l o (pinfo_below parent nm)) ch (set_cur (cur_of nm) s) with
     | XOk (b4, s4) =>
       XOk (elt_open l o parent nm attrs ++ 62 :: b4 ++ 60 :: 47 :: tname_bytes nm ++ [62],
            mk_est (e_indent s4) false (e_in_cdata s4) (e_cur_tag s4))
@@ -609,7 +609,7 @@ Proof.
   - cbn [app]. unfold set_cur, cur_of. rewrite <- !app_assoc. reflexivity.
   - change (match nm with TTok r => Some r | TLit _ => None end) with (cur_of nm).
     change (mk_est (e_indent s) (e_in_content s) (e_in_cdata s) (cur_of nm)) with (set_cur (cur_of nm) s).
-    destruct (seq_nodes (enc_node l o (PElt nm)) (c :: ch') (set_cur (cur_of nm) s)) as [[b4 s4]|e]; [|reflexivity].
+    destruct (seq_nodes (enc_node l o (pinfo_below parent nm)) (c :: ch') (set_cur (cur_of nm) s)) as [[b4 s4]|e]; [|reflexivity].
     cbn [app]. rewrite <- !app_assoc. reflexivity.
 Qed.
 
@@ -624,8 +624,9 @@ Lemma emit_triples l o parent nm attrs :
   xmlns_part l parent nm ++ parse_attributes l o attrs = flat_map emit_attr (attr_triples l o parent nm attrs).
 Proof.
   unfold attr_triples, xmlns_part, spec_ns, parse_attributes. rewrite flat_map_app. f_equal.
-  - destruct (xl_ns l) as [nst|]; [|reflexivity]. destruct (ns_wanted parent nm); [|reflexivity].
-    destruct (get_xmlns nst (tname_page nm)) as [ns|]; [|reflexivity].
+  - destruct (xl_ns l) as [nst|]; [|reflexivity]. destruct nm as [r|lit]; [|reflexivity].
+    destruct (ns_wanted parent (TTok r)); [|reflexivity].
+    destruct (get_xmlns nst (tr_page r)) as [ns|]; [|reflexivity].
     cbn [map flat_map emit_attr fst snd app]. rewrite app_nil_r. reflexivity.
   - destruct (xl_has_attrs l); [|reflexivity].
     induction attrs as [|a attrs IH]; [reflexivity|]. cbn [map flat_map]. rewrite IH. f_equal.
@@ -657,8 +658,9 @@ Lemma ok_triples l o parent nm attrs :
 Proof.
   intros HL HA. unfold attr_triples. apply Forall_app. split.
   - unfold spec_ns. destruct (xl_ns l) as [nst|] eqn:EN; [|constructor].
-    destruct (ns_wanted parent nm); [|constructor].
-    destruct (get_xmlns nst (tname_page nm)) as [ns|] eqn:EG; [|constructor].
+    destruct nm as [rw|lit]; [|constructor].
+    destruct (ns_wanted parent (TTok rw)); [|constructor].
+    destruct (get_xmlns nst (tr_page rw)) as [ns|] eqn:EG; [|constructor].
     constructor; [|constructor]. cbn [fst snd]. split; [reflexivity|].
     apply raw_aval_ok. unfold lang_ok in HL. rewrite EN in HL. apply andb_true_iff in HL as [_ HL].
     destruct (get_xmlns_in _ _ _ EG) as (r & Hin & <-). rewrite forallb_forall in HL. now apply HL.
@@ -793,8 +795,8 @@ Proof.
     rewrite (enc_elt_noindent l o parent s nm attrs ch Hi) in Henc.
     cbn [node_ok] in Hok.
     change ((fix go (cur0 : option trow) (ns : list node) {struct ns} : bool :=
-               match ns with [] => true | x :: r => node_ok l o (PElt nm) cur0 x && go None r end) (cur_of nm) ch)
-      with (nodes_ok l o (PElt nm) (cur_of nm) ch) in Hok.
+               match ns with [] => true | x :: r => node_ok l o (pinfo_below parent nm) cur0 x && go None r end) (cur_of nm) ch)
+      with (nodes_ok l o (pinfo_below parent nm) (cur_of nm) ch) in Hok.
     apply andb_true_iff in Hok as [Hok Hok4]. apply andb_true_iff in Hok as [Hok Hok3].
     apply andb_true_iff in Hok as [Hok1 Hok2].
     pose proof (ok_triples l o parent nm attrs HL Hok2) as HF.
@@ -864,10 +866,10 @@ Proof.
       intros attrs' ->. cbn [merge_items fold_left rev].
       eapply p_content_mono; [apply (Hk [] [] _ run_ok_nil); reflexivity|lia].
     + (* element with content *)
-      destruct (seq_nodes (enc_node l o (PElt nm)) (c0 :: ch0) (set_cur (cur_of nm) s)) as [[b4 s4]|e] eqn:E4; [|discriminate].
+      destruct (seq_nodes (enc_node l o (pinfo_below parent nm)) (c0 :: ch0) (set_cur (cur_of nm) s)) as [[b4 s4]|e] eqn:E4; [|discriminate].
       assert (Hb : b = elt_open l o parent nm attrs ++ 62 :: b4 ++ 60 :: 47 :: tname_bytes nm ++ [62]) by congruence.
       assert (Hs' : e_in_cdata s' = e_in_cdata s4) by (injection Henc as _ <-; reflexivity). subst b. clear Henc.
-      destruct (list_main (c0 :: ch0) IHch l o (PElt nm) (cur_of nm) (set_cur (cur_of nm) s) b4 s4 Hi HL Hc eq_refl Hok4 E4)
+      destruct (list_main (c0 :: ch0) IHch l o (pinfo_below parent nm) (cur_of nm) (set_cur (cur_of nm) s) b4 s4 Hi HL Hc eq_refl Hok4 E4)
         as (Hc4 & its & Hinfo & Hread).
       split; [now rewrite Hs'|].
       exists [XE (tname_bytes nm) (spec_attrs l o parent nm attrs) (merge_items its)]. split.
@@ -956,36 +958,36 @@ Qed.
 (* the document is one root element *)
 Theorem read_enc_noindent l o nm attrs ch out :
   is_indent o = false -> lang_ok l = true ->
-  node_ok l o PRoot None (Elt nm attrs ch) = true ->
+  node_ok l o None None (Elt nm attrs ch) = true ->
   enc_xml_opts l o [Elt nm attrs ch] = XOk out ->
   exists items,
-    info_node l o PRoot None (Elt nm attrs ch) = Some items /\
+    info_node l o None None (Elt nm attrs ch) = Some items /\
     forall fuel, (node_fuel (Elt nm attrs ch) + 2 <= fuel)%nat -> read_xml fuel out = ROk (doc_of l items).
 Proof.
   intros Hi HL Hok Henc. unfold enc_xml_opts, enc_nodes in Henc. cbn [seq_nodes] in Henc.
-  destruct (enc_node l o PRoot (est0 0) (Elt nm attrs ch)) as [[b s1]|e] eqn:E; [|discriminate].
+  destruct (enc_node l o None (est0 0) (Elt nm attrs ch)) as [[b s1]|e] eqn:E; [|discriminate].
   assert (Hout : out = xml_header l o ++ b ++ []) by congruence. subst out. clear Henc.
-  destruct (node_main (Elt nm attrs ch) l o PRoot None (est0 0) b s1 Hi HL eq_refl eq_refl Hok E) as (_ & its & Hinfo & Hread).
+  destruct (node_main (Elt nm attrs ch) l o None None (est0 0) b s1 Hi HL eq_refl eq_refl Hok E) as (_ & its & Hinfo & Hread).
   exists its. split; [exact Hinfo|]. intros fuel Hfuel.
   rewrite app_nil_r. rewrite (header_read l o fuel b Hi HL).
   (* shape of the items and of the text *)
   pose proof Hinfo as Hinfo'. cbn [info_node] in Hinfo'.
-  destruct (info_list (info_node l o (PElt nm)) (cur_of nm) ch) as [cits|]; [|discriminate].
+  destruct (info_list (info_node l o (pinfo_below None nm)) (cur_of nm) ch) as [cits|]; [|discriminate].
   injection Hinfo' as <-.
   assert (Hb : exists c1 rb, b = 60 :: c1 :: rb /\ is_name_start c1 = true).
-  { rewrite (enc_elt_noindent l o PRoot (est0 0) nm attrs ch Hi) in E.
+  { rewrite (enc_elt_noindent l o None (est0 0) nm attrs ch Hi) in E.
     cbn [node_ok] in Hok. apply andb_true_iff in Hok as [Hok _]. apply andb_true_iff in Hok as [Hok _].
     apply andb_true_iff in Hok as [Hok _]. destruct (name_not_special _ Hok) as (c1 & rn & En & Hs).
     destruct ch as [|c0 ch0].
     - injection E as <- _. unfold elt_open. rewrite En. cbn [app]. eauto.
-    - destruct (seq_nodes (enc_node l o (PElt nm)) (c0 :: ch0) (set_cur (cur_of nm) (est0 0))) as [[b4 s4]|]; [|discriminate].
+    - destruct (seq_nodes (enc_node l o (pinfo_below None nm)) (c0 :: ch0) (set_cur (cur_of nm) (est0 0))) as [[b4 s4]|]; [|discriminate].
       injection E as <- _. unfold elt_open. rewrite En. cbn [app]. eauto. }
   destruct Hb as (c1 & rb & Eb & Hs1).
   assert (Hskip : skip_ws b = b) by (rewrite Eb; reflexivity). rewrite Hskip.
   unfold p_root. rewrite Eb, Hs1. rewrite <- Eb.
   replace fuel with (node_fuel (Elt nm attrs ch) + (fuel - node_fuel (Elt nm attrs ch)))%nat by lia.
   pose proof (Hread [] [] [] [60; 47] (fuel - node_fuel (Elt nm attrs ch))%nat
-                    ([XE (tname_bytes nm) (spec_attrs l o PRoot nm attrs) (merge_items cits)], []) run_ok_nil) as HR.
+                    ([XE (tname_bytes nm) (spec_attrs l o None nm attrs) (merge_items cits)], []) run_ok_nil) as HR.
   cbn [app] in HR. rewrite HR; [reflexivity|].
   intros pre2 tpre2 acc2 Hrun2 Heq. cbn [fold_left push_item push_text] in Heq.
   destruct (fuel - node_fuel (Elt nm attrs ch))%nat as [|[|f2]] eqn:Ef; [lia|lia|].
@@ -995,10 +997,10 @@ Qed.
 (* the same, stated with the public options (wbxml_tree_to_xml's parameters) *)
 Corollary read_enc_compact_canonical l g indent keep_ws nm attrs ch out :
   g <> Indent -> lang_ok l = true ->
-  node_ok l (opts_of_params g indent keep_ws) PRoot None (Elt nm attrs ch) = true ->
+  node_ok l (opts_of_params g indent keep_ws) None None (Elt nm attrs ch) = true ->
   enc_xml l g indent keep_ws [Elt nm attrs ch] = XOk out ->
   exists items,
-    info_node l (opts_of_params g indent keep_ws) PRoot None (Elt nm attrs ch) = Some items /\
+    info_node l (opts_of_params g indent keep_ws) None None (Elt nm attrs ch) = Some items /\
     forall fuel, (node_fuel (Elt nm attrs ch) + 2 <= fuel)%nat -> read_xml fuel out = ROk (doc_of l items).
 Proof.
   intros Hg. apply read_enc_noindent. destruct g; [reflexivity|contradiction|reflexivity].
@@ -1055,10 +1057,10 @@ Proof.
   induction n as [nm attrs ch IHch|t|ch _| |sl roots _] using node_ind2; intros l o1 o2 parent cur HS HP; try reflexivity.
   - cbn [plain_attrs] in HP. apply andb_true_iff in HP as [HA HC]. cbn [info_node].
     rewrite (c07_xml_info_attrs_indep l o1 o2 parent nm attrs HA).
-    assert (E : forall c, info_list (info_node l o1 (PElt nm)) c ch = info_list (info_node l o2 (PElt nm)) c ch).
+    assert (E : forall c, info_list (info_node l o1 (pinfo_below parent nm)) c ch = info_list (info_node l o2 (pinfo_below parent nm)) c ch).
     { clear HA. induction IHch as [|x r Hx Hr IH]; intros c; [reflexivity|].
       cbn [forallb] in HC. apply andb_true_iff in HC as [HC1 HC2]. cbn [info_list].
-      rewrite (Hx l o1 o2 (PElt nm) c HS HC1). fold (info_list (info_node l o1 (PElt nm))). fold (info_list (info_node l o2 (PElt nm))).
+      rewrite (Hx l o1 o2 (pinfo_below parent nm) c HS HC1). fold (info_list (info_node l o1 (pinfo_below parent nm))). fold (info_list (info_node l o2 (pinfo_below parent nm))).
       now rewrite (IH HC2 None). }
     now rewrite E.
   - destruct HS as (A & B & C & D). cbn [info_node]. now rewrite (spec_text_keep l o1 o2 cur t A B C D).
@@ -1067,8 +1069,8 @@ Qed.
 (* compact and canonical generation of one tree are read back as the same document *)
 Theorem c07_xml_compact_canonical l i1 i2 nm attrs ch out1 out2 :
   lang_ok l = true -> plain_attrs (Elt nm attrs ch) = true ->
-  node_ok l (opts_of_params Compact i1 true) PRoot None (Elt nm attrs ch) = true ->
-  node_ok l (opts_of_params Canonical i2 true) PRoot None (Elt nm attrs ch) = true ->
+  node_ok l (opts_of_params Compact i1 true) None None (Elt nm attrs ch) = true ->
+  node_ok l (opts_of_params Canonical i2 true) None None (Elt nm attrs ch) = true ->
   enc_xml l Compact i1 true [Elt nm attrs ch] = XOk out1 ->
   enc_xml l Canonical i2 true [Elt nm attrs ch] = XOk out2 ->
   forall fuel, (node_fuel (Elt nm attrs ch) + 2 <= fuel)%nat ->
@@ -1077,7 +1079,7 @@ Proof.
   intros HL HP H1 H2 E1 E2 fuel Hf.
   destruct (read_enc_compact_canonical l Compact i1 true nm attrs ch out1 ltac:(discriminate) HL H1 E1) as (it1 & I1 & R1).
   destruct (read_enc_compact_canonical l Canonical i2 true nm attrs ch out2 ltac:(discriminate) HL H2 E2) as (it2 & I2 & R2).
-  rewrite (c07_xml_info_indep _ l _ (opts_of_params Canonical i2 true) PRoot None) in I1; [|repeat split|exact HP].
+  rewrite (c07_xml_info_indep _ l _ (opts_of_params Canonical i2 true) None None) in I1; [|repeat split|exact HP].
   assert (it1 = it2) by congruence. subst it2.
   exists (doc_of l it1). split; [apply R1|apply R2]; exact Hf.
 Qed.
@@ -1145,7 +1147,7 @@ Proof.
   unfold xml_encode_tag, xml_encode_end_attrs, xml_encode_end_tag, nl_if, indent_bytes in *.
   rewrite (all_text_no_child_elt ch HA) in *. cbn [is_indent o_gen o_delta andb] in *.
   destruct ch as [|c0 ch0]; [contradiction|].
-  rewrite (seq_text_opts l (mk_opts Indent delta ig rb) (mk_opts Compact 1 ig rb) (PElt nm) (PElt nm) (c0 :: ch0) HA) by (repeat split).
+  rewrite (seq_text_opts l (mk_opts Indent delta ig rb) (mk_opts Compact 1 ig rb) (pinfo_below parent nm) (pinfo_below parent nm) (c0 :: ch0) HA) by (repeat split).
   match type of Hc with context [seq_nodes ?f ?c ?st] => destruct (seq_nodes f c st) as [[b4 s4]|] eqn:E4; [|discriminate] end.
   assert (Hbc : bc = ([] ++ [60] ++ tname_bytes nm ++ xmlns_part l parent nm) ++
                      parse_attributes l (mk_opts Compact 1 ig rb) attrs ++ [62] ++ b4 ++
